@@ -178,6 +178,14 @@ func (env *SpecEnv) term(e SExpr) (Val, error) {
 						if c, ok := obj.(*types.Const); ok {
 							return constToVal(vc, c)
 						}
+						if g, ok := obj.(*types.Var); ok {
+							if sp := vc.eng.spkgs[id.Name]; sp != nil {
+								if gv, ok := sp.Members[x.Sel].(*ssa.Global); ok {
+									hi := vc.globalHeap(gv)
+									return Val{T: vc.heapGet(env.cur, hi), S: hi.valSort, Typ: g.Type()}, nil
+								}
+							}
+						}
 					}
 				}
 			}
@@ -499,7 +507,13 @@ func (env *SpecEnv) quant(x *SQuant) (Val, error) {
 	saved, savedPlain := vc.idxUses, vc.plainUses
 	vc.idxUses = map[string][]string{}
 	vc.plainUses = map[string]bool{}
-	_, err := env.quant1(x, nil)
+	// binder names are chosen once so that terms recorded in pass 1 stay meaningful in pass 2
+	names := make([]string, len(x.Vars))
+	for i, v := range x.Vars {
+		vc.nfresh++
+		names[i] = fmt.Sprintf("%s!q%d", sanitize(v.Name), vc.nfresh)
+	}
+	_, err := env.quant1(x, nil, names)
 	uses := vc.idxUses
 	for name := range vc.plainUses {
 		delete(uses, name) // used directly as a ghost-map key or function argument: already a good trigger
@@ -528,7 +542,7 @@ func (env *SpecEnv) quant(x *SQuant) (Val, error) {
 			}
 			choice[name] = l[k]
 		}
-		v, err := env.quant1(x, choice)
+		v, err := env.quant1(x, choice, names)
 		if err != nil {
 			return Val{}, err
 		}
@@ -537,20 +551,33 @@ func (env *SpecEnv) quant(x *SQuant) (Val, error) {
 	return Val{T: sAnd(parts...), S: SBool, Typ: boolT}, nil
 }
 
-func (env *SpecEnv) quant1(x *SQuant, absOf map[string]string) (Val, error) {
+func containsAny(s string, subs []string) bool {
+	for _, x := range subs {
+		if strings.Contains(s, x) {
+			return true
+		}
+	}
+	return false
+}
+
+func (env *SpecEnv) quant1(x *SQuant, absOf map[string]string, names []string) (Val, error) {
 	vc := env.vc
+	// a variable is re-expressed as an absolute index only relative to a slice that does not depend on a variable
+	// bound by this same quantifier (it may depend on variables of enclosing quantifiers)
+	savedB := vc.curBinders
+	vc.curBinders = names
+	defer func() { vc.curBinders = savedB }()
 	sub := env.child()
 	vc.quantDepth++
 	defer func() { vc.quantDepth-- }()
 	var binders []string
 	var guards []string
-	for _, v := range x.Vars {
+	for vi, v := range x.Vars {
 		ty, err := vc.eng.resolveType(v.Type, env.pkg)
 		if err != nil {
 			return Val{}, err
 		}
-		vc.nfresh++
-		bn := fmt.Sprintf("%s!q%d", sanitize(v.Name), vc.nfresh)
+		bn := names[vi]
 		s := vc.sorts.sortOf(ty)
 		val := Val{T: bn, S: s, Typ: ty}
 		if absOf == nil {
@@ -598,7 +625,7 @@ func (env *SpecEnv) quant1(x *SQuant, absOf map[string]string) (Val, error) {
 // absIndex builds the absolute array index of element idx of slice term base.
 func (vc *VC) absIndex(base, idx string) string {
 	if vc.idxUses != nil {
-		if name, ok := vc.qvarNames[idx]; ok && !strings.Contains(base, "!q") {
+		if name, ok := vc.qvarNames[idx]; ok && !containsAny(base, vc.curBinders) {
 			dup := false
 			for _, b := range vc.idxUses[name] {
 				if b == base {
@@ -682,8 +709,7 @@ func (env *SpecEnv) selectField(base Val, name string) (Val, error) {
 		ft := cst.Field(idx).Type()
 		if ptr {
 			if _, nested := ft.Underlying().(*types.Struct); nested {
-				fa := vc.fieldAddrFn(curT, idx)
-				cur = Val{T: "(" + fa + " " + cur.T + ")", S: SInt, Typ: types.NewPointer(ft)}
+				cur = Val{T: vc.interiorRef(curT, idx, cur.T), S: SInt, Typ: types.NewPointer(ft)}
 				curT = ft
 				ptr = true
 				continue
@@ -1237,7 +1263,7 @@ func (env *SpecEnv) methodCall(recv Val, name string, argExprs []SExpr) (Val, er
 		}
 		ft := sty.Field(idx).Type()
 		if _, nested := ft.Underlying().(*types.Struct); nested {
-			cur = Val{T: "(" + vc.fieldAddrFn(st, idx) + " " + cur.T + ")", S: SInt, Typ: types.NewPointer(ft)}
+			cur = Val{T: vc.interiorRef(st, idx, cur.T), S: SInt, Typ: types.NewPointer(ft)}
 		} else {
 			hi := vc.fieldHeap(st, idx)
 			cur = Val{T: "(select " + vc.heapGet(env.cur, hi) + " " + cur.T + ")", S: hi.valSort, Typ: ft}
@@ -1265,4 +1291,12 @@ func (env *SpecEnv) methodCall(recv Val, name string, argExprs []SExpr) (Val, er
 		names = append(names, p.Name())
 	}
 	return Val{T: env.ex.pureTerm(fc, key, names, all, env.cur, rs, 0, rsort), S: rsort, Typ: rt}, nil
+}
+
+func (env *SpecEnv) hasLoopLocal(name string) bool {
+	if env.loop == nil || env.fn == nil {
+		return false
+	}
+	_, ok, _ := env.loopLocal(name)
+	return ok
 }
